@@ -326,6 +326,12 @@ func (ch c18) runCase(c *core.Ctx, env *hs.Env, L int, rng *core.Rng, idx int) {
 			}
 			st.binds[tag] = params
 			pname := fmt.Sprintf("po%d", m)
+			if len(portals) > 0 && rng.Intn(3) == 0 {
+				// a portal name bound before (executed or not) is bound again, or the unnamed portal is used:
+				// what was handed out for the earlier Bind stays what it was
+				pname = core.Pick(rng, append([]string{""}, portals...))
+				c.Count("portal_names_bound_again", 1)
+			}
 			portals = append(portals, pname)
 			sname := fmt.Sprintf("s%d", m)
 			in = append(in, pg.Parse(sname, q, oids)...)
